@@ -135,7 +135,7 @@ UNDECIDED = {
     'C16': ["end_loop re-push (f64 arithmetic) - read, not proved", "ValueArray / DimArray internals enter the Arrays wrapper as assumed contracts, themselves checked by Kani (bounded)"],
     'C17': ["the relational claim (identical output/inputs/errors/final state in all four configurations) is concluded from three facts, not proved as a 2-safety property: the switches are read at exactly the censused sites, each site only appends Warning / Trace records, and no statement or expression writes a switch", "that the trace records name exactly the lines execution passes through, and that a warning is issued exactly for never-assigned variables / missing arrays, are not decided (the guard conditions are read, not specified)", "PRINT and user-defined function calls are assumed contracts (they promise not to write the switches)", "TRACE / NOTRACE commands live in maybe_process_command (outside Verus; census only)"],
     'C15': [
-        "first half of the property (a loaded file lists and runs exactly like the same lines typed in): SourceFileAnalyzer::run (enumerate / zip over the tokenizer) is outside both verifiers - undecided, a change there is not reported by this check; what the CLI relies on from the analyzer (every diagnostic names a line of the file; the store is well formed; into_interpreter = reset_runtime_state + from_program) enters as ASSUMED contracts",
+        "first half of the property (a loaded file lists and runs exactly like the same lines typed in): SourceFileAnalyzer::run (enumerate / zip over the tokenizer) is outside both verifiers - undecided, a change there is not reported by this check; what the CLI relies on from the analyzer's pass (every diagnostic names a line of the file; the store it built is well formed) enters as ASSUMED contracts; into_interpreter and from_program are proved (the loaded interpreter holds exactly the analyzer's stored lines and none of its runtime state)",
         "second half: decided as a per-function invariant (the switches of the interpreter in use equal the command-line options after new, load_source_file, show_interpreter_output, break_interpreter, show_error), not as an equality of two process transcripts; StdioInterpreter::run / run_impl (rustyline, ctrlc, channels) are outside Verus - a syntactic census pins the only other place the interpreter is replaced (NEW: args.create_interpreter())",
         "--skip-check only suppresses the diagnostics loop (proved: the interpreter and options are the same on both paths); the text written to stdout/stderr (colored, format!) is not specified",
     ],
@@ -150,5 +150,5 @@ GLOBAL_TRUSTED = [
     'Verus 0.2026.09.13 + bundled Z3; vstd specifications of Vec/Option/Result/HashMap/BTreeSet',
     'Kani 0.68.0 + CBMC 6.11 + CaDiCaL; rustc front ends of both tools',
     'machine integers: overflow is a failed obligation (debug-profile semantics of the test suite)',
-    'extraction: items are cut verbatim from /repo each run; normalisations N0-N6 are listed with counts',
+    'extraction: items are cut verbatim from /repo each run; normalisations N0-N8 are listed with counts',
 ]
